@@ -41,9 +41,8 @@ META = dict(
         'all length-3 (thorough: 4) sequences over {geos_within_constraints, '
         'count_max_designs, both searches, edit-the-parameter-object} '
         '(share range toggled, n_geos_max cleared), n_designs symbolic',
-        thorough='length 3 with symbolic parameters, length 4 concrete on '
-        'P1; P2 and P11; adds share, geo-ratio tolerance and both size '
-        'ranges symbolic'),
+        thorough='length 3 with symbolic parameters on P1; P2 and P11; adds '
+        'share, geo-ratio tolerance and both size ranges symbolic'),
     outside='panels concrete; sequences longer than the bound; budget-based '
     'scores (symbolic score entries) are compared syntactically',
     stubs=['pandas.core.nanops._ensure_numeric pass-through'],
@@ -264,9 +263,8 @@ def jobs(tier, seed):
                       timeout_s=1200 if tier == 'quick' else 3300))
   if tier == 'thorough':
     for f in range(len(OPS) - 1):
-      for sym in (['tsize'], ['csize'], ['k']):
+      for sym in (['tsize'], ['k']):
         out.append(_sj('P1', 0, None, sym, 3, f, tier, w=80))
-      out.append(_sj('P1', 0, None, [], 4, f, tier, w=90))
       for panel in ['P2', 'P11']:
         out.append(_sj(panel, 0, None, [], 3, f, tier, w=70))
         for sym in (['tsize'], ['k']):
